@@ -48,6 +48,19 @@ impl Parsed {
 
         // First add all modules to the tree
         for (i, file) in file_tree.files.iter().enumerate() {
+            // A module is printed as the dotted path of the module names
+            // down to it: a name that is not identifier-shaped (`a.b`) could
+            // collide with the path of another module.
+            if !crate::file_tree::is_identifier_shaped(&file.module_name) {
+                errors.push(RotoError::Read(
+                    file.name.clone(),
+                    std::io::Error::other(format!(
+                        "module name `{}` is not a valid Roto identifier",
+                        file.module_name
+                    )),
+                ));
+                continue;
+            }
             let ident: Identifier = (&file.module_name).into();
             // The module itself is located at the first character of its
             // file (which might be empty or start with a multi-byte char).
